@@ -422,6 +422,35 @@ pub open spec fn asm_inv(c: &Context, o: &Output) -> bool {
         toks(final(out).data@.last()@) == @TOKS(L:set N:n), //# C12,C11 asm.emitted_line_is_the_directive_in_the_loaders_syntax
 //@end
 
+// ---- string instructions: `movs byte` / `cmps word` ...: the mnemonic (already lowered by its table) followed by the operand size
+//@action src/lib/preprocessor/preprocessor.rs string_condition_repeat_opcode = quote_condition_repeat_opcode, quote_byte_length as as_string_condition_repeat_opcode_byte
+//@contract
+//@fmttoks
+//@dropunused
+    ensures toks(r@) == @TOKS(P:q L:byte), //# C07,C11 asm.string_instruction_text_carries_its_operand_size
+//@end
+
+//@action src/lib/preprocessor/preprocessor.rs string_condition_repeat_opcode = quote_condition_repeat_opcode, quote_word_length as as_string_condition_repeat_opcode_word
+//@contract
+//@fmttoks
+//@dropunused
+    ensures toks(r@) == @TOKS(P:q L:word), //# C07,C11 asm.string_instruction_text_carries_its_operand_size
+//@end
+
+//@action src/lib/preprocessor/preprocessor.rs string_repeat_opcode = quote_repeat_opcode, quote_byte_length as as_string_repeat_opcode_byte
+//@contract
+//@fmttoks
+//@dropunused
+    ensures toks(r@) == @TOKS(P:q L:byte), //# C07,C11 asm.string_instruction_text_carries_its_operand_size
+//@end
+
+//@action src/lib/preprocessor/preprocessor.rs string_repeat_opcode = quote_repeat_opcode, quote_word_length as as_string_repeat_opcode_word
+//@contract
+//@fmttoks
+//@dropunused
+    ensures toks(r@) == @TOKS(P:q L:word), //# C07,C11 asm.string_instruction_text_carries_its_operand_size
+//@end
+
 // ---- macro use (C16: the position of the OUTERMOST use is frozen around the expansion and released afterwards; C13/C19: a use of a
 // macro that is being expanded is refused, and the set of macros under expansion is restored whatever the expansion ends with).
 // The nested parse of the expansion is the recursive call of this very grammar: its ASSUMED contract is the property itself one
